@@ -440,8 +440,8 @@ def optimize_kl(likelihood_energy,
         # Mark the iteration as finished only after everything that is needed
         # for resuming from it has been written
         if output_directory is not None and _MPI_master(comm(iglobal)):
-            with open(join(output_directory, "last_finished_iteration"), "w") as f:
-                f.write(str(iglobal))
+            _atomic_write(join(output_directory, "last_finished_iteration"),
+                          str(iglobal).encode())
         _barrier(comm(iglobal))
 
         _counting_report(count, iglobal, comm)
@@ -475,11 +475,21 @@ def _file_name_by_strategy(iglobal, save_strategy='global_strategy'):
     raise RuntimeError
 
 
+def _atomic_write(file_name, content):
+    # Write to a temporary file and move it into place, such that a crash
+    # never leaves a partially written file behind under `file_name`
+    from os import replace
+    from os.path import basename, dirname
+    tmp = join(dirname(file_name), ".tmp." + basename(file_name))
+    with open(tmp, "wb") as f:
+        f.write(content)
+    replace(tmp, file_name)
+
+
 def _save_random_state():
     from ..random import getState
     file_name = join(_output_directory, "pickle/nifty_random_state")
-    with open(file_name, "wb") as f:
-        f.write(getState())
+    _atomic_write(file_name, getState())
 
 
 def _load_random_state():
@@ -492,8 +502,7 @@ def _load_random_state():
 def _pickle_save_values(index, name, val):
     file_name = join(_output_directory, f"pickle/{name}_")
     file_name += _file_name_by_strategy(index)
-    with open(file_name, "wb") as f:
-        pickle.dump(val, f)
+    _atomic_write(file_name, pickle.dumps(val))
 
 
 def _pickle_load_values(index, name):
